@@ -11,3 +11,6 @@ import RaftWal.Props.C16
 #print axioms RaftWal.C16.cluster_range_mismatch
 #print axioms RaftWal.C16.cluster_nonvacuous
 #print axioms RaftWal.C16.sum_published_after_store
+#print axioms RaftWal.C16.delete_reset_condition_from_source
+#print axioms RaftWal.C16.range_mismatch_condition_from_source
+#print axioms RaftWal.C16.written_sum_void_condition_from_source
